@@ -585,6 +585,15 @@ func VerifyNODATAForZoneWithWork(
 		if q.Qtype == dns.TypeDS && typesSet(types, dns.TypeSOA) {
 			return false, ErrNSECBadDelegation
 		}
+		// The converse: the parent side of a cut (NS without SOA) is
+		// authoritative for DS and for nothing else at this name.
+		// Every other type lives in the child zone, and the parent
+		// answers it with a referral, never with NODATA (RFC 6840
+		// §4.1); mirrors VerifyNODATANSEC.
+		if q.Qtype != dns.TypeDS && typesSet(types, dns.TypeNS) &&
+			!typesSet(types, dns.TypeSOA) {
+			return false, ErrNSECBadDelegation
+		}
 		return true, nil
 	} else if err != ErrNSECMissingCoverage {
 		return false, err
